@@ -303,6 +303,33 @@ fn run(ctx: &mut Ctx) {
         job += (n2 >> 14) + 1;
         ctx.bound(&format!("bursts {name}"), format!("<= {max_burst} bits, {n} patterns"));
     }
+    // (a') every first byte of the three parity-checked formats (DF11/17/18 x CA/CF 0..7): 1-/2-bit errors and
+    // bursts up to 8 (12) bits; and frames with algebraic structure (a prefix that is itself a multiple of the
+    // generator, zero / one / 0x5A fill), as they stand and sealed
+    for df in [11u32, 17, 18] {
+        for ca in 0..8u32 {
+            job += 1;
+            if !ctx.mine(job) {
+                continue;
+            }
+            let base = match df {
+                11 => frames::df11(ca, 0x4CA2D6, 0),
+                _ => frames::es(df, ca, 0x4CA2D6, frames::me_airpos(11, 0, 0, frames::ac12_for_alt(2800), 0, (ca & 1) as u32, 93000 + ca as u32, 51372)),
+            };
+            let nbits = base.nbits;
+            let name: &'static str = Box::leak(format!("DF{df}-CA{ca}").into_boxed_str());
+            ctx.count("first-byte-bases");
+            check_get_message(ctx, name, &base, 0, "none", false);
+            patterns(nbits, if thorough { 12 } else { 8 }, |m, k| check_get_message(ctx, name, &base, m, k, false));
+            let first = ((df << 3) | ca) as u8;
+            for lead in [[first, 0x4C, 0xA2, 0xD6, 0x58, 0x0F, 0x82, 0xDD, 0xDE, 0xCF, 0x5C], [first, 0xF8, 0xBA, 0x93, 0x00, 0x12, 0x34, 0x56, 0x78, 0x9A, 0xBC], [first, 0, 0, 1, 0, 0, 0, 0, 0, 0, 0]] {
+                for f in frames::crc_structured(&lead, nbits, 0) {
+                    ctx.count("crc-structured");
+                    check_get_message(ctx, name, &f, 0, "structured", false);
+                }
+            }
+        }
+    }
     // the unmodified bases must be accepted (the check is not vacuous "rejects everything")
     for (name, base) in &bs {
         ctx.eval();
